@@ -151,4 +151,92 @@ theorem walk_noLink_dots (fs : FS) (b : Nat) : ∀ (cs pos : List Name) (t : Tre
               · simp at h
             · simp at h
 
+def LenOK (cs : List Name) : Prop := ∀ c ∈ cs, ¬ c.length > nameMax
+
+/-- Along an existing chain of directories the kernel walk is the plain descent. -/
+theorem walk_chain (fs : FS) (b : Nat) : ∀ (cs pos : List Name), NoDots cs → LenOK cs →
+    (∃ t, get fs.root (pos ++ cs) = some t ∧ t.isDir = true) → walk fs b pos cs = .ok (pos ++ cs) := by
+  intro cs
+  induction cs with
+  | nil => intro pos _ _ _; rw [walk]; simp
+  | cons c rest ih =>
+    intro pos hnd hlen ⟨t, hget, hdir⟩
+    have hc := hnd c (by simp)
+    rw [get_append] at hget
+    cases h0 : get fs.root pos with
+    | none => rw [h0] at hget; simp at hget
+    | some t0 =>
+      rw [h0] at hget
+      simp only [Option.bind_some, get_cons] at hget
+      cases h1 : t0.child c with
+      | none => rw [h1] at hget; simp at hget
+      | some t1 =>
+        rw [h1] at hget
+        simp only [Option.bind_some] at hget
+        have ht0 := isDir_of_child h1
+        have ht1 : t1.isDir = true := by
+          cases rest with
+          | nil => simp at hget; subst hget; exact hdir
+          | cons c2 r2 =>
+            rw [get_cons] at hget
+            cases h2 : t1.child c2 with
+            | none => rw [h2] at hget; simp at hget
+            | some t2 => exact isDir_of_child h2
+        rw [walk]
+        simp only [h0]
+        cases t0 with
+        | file i => simp [Tree.isDir] at ht0
+        | dir m mt es =>
+          simp only [hc.1, hc.2, if_false, hlen c (by simp), h1]
+          cases t1 with
+          | file i => simp [Tree.isDir] at ht1
+          | dir m1 mt1 es1 =>
+            simp only []
+            have := ih (pos ++ [c]) (fun x hx => hnd x (by simp [hx])) (fun x hx => hlen x (by simp [hx]))
+              ⟨t, by rw [List.append_assoc, get_append, h0]; simp [get_cons, h1, hget], hdir⟩
+            rw [this]; simp
+
+/-- A successful walk along a symlink-free prefix passed the NAME_MAX test at every component. -/
+theorem walk_ok_len (fs : FS) (b : Nat) : ∀ (cs pos : List Name) (t : Tree), NoDots cs →
+    get fs.root pos = some t → NoLinkT fs t cs → ∀ r, walk fs b pos cs = .ok r → LenOK cs := by
+  intro cs
+  induction cs with
+  | nil => intro _ _ _ _ _ _ _ c hc; simp at hc
+  | cons c rest ih =>
+    intro pos t hnd hget hnl r h
+    have hc := hnd c (by simp)
+    have hnd' : NoDots rest := fun x hx => hnd x (by simp [hx])
+    rw [walk] at h
+    simp only [hget] at h
+    cases t with
+    | file i => simp at h
+    | dir m mt es =>
+      simp only [hc.1, hc.2, if_false] at h
+      split at h
+      · simp at h
+      · rename_i hl
+        simp only [NoLinkT] at hnl
+        split at h
+        · simp at h
+        · rename_i m' mt' es' hch
+          simp only [hch, Tree.isDir, if_true] at hnl
+          have hg : get fs.root (pos ++ [c]) = some (.dir m' mt' es') := by
+            rw [get_snoc, hget]; exact hch
+          have := ih (pos ++ [c]) _ hnd' hg hnl r h
+          intro x hx
+          simp at hx
+          rcases hx with rfl | hx
+          · exact hl
+          · exact this x hx
+        · rename_i i hch
+          split at h
+          · simp only [hch, Tree.isDir, isLnk] at hnl
+            rename_i tg hf; simp [hf] at hnl
+          · split at h
+            · rename_i hr; subst hr
+              intro x hx; simp at hx; subst hx; exact hl
+            · simp at h
+          · simp at h
+
+
 end LA.FS
